@@ -36,12 +36,13 @@ func main() {
 	}
 	defer drv.Close()
 	h := &harness{
-		drv:  drv,
-		tieC: res.Tie("coll-stream", "K1", "random write histories on a Collection (Add/Update/Delete, successful and failing, every write option, with/without write time, id interceptor, generated ids, fixed/ticking clock, empty/one/many initial records) with backpressured Pull subscribers opened at random points (read mask, updates-only; resource equivalence none/equal/sameA); compared: every seed and every delivery after every write. distinct = distinct (config, op, subscriptions, answer)"),
-		tieV: res.Tie("value-stream", "K1", "the same for Value.Set / Value.Pull (with/without initial value)"),
-		tieS: res.Tie("small-scope", "K2", "ALL write histories up to the stated length over ids {a,b} (add/update/create-update/delete/failing-precondition) x every subscription point x {plain, updates-only, read mask} x equivalence {none, equal}; distinct = distinct scripts"),
-		tieR: res.Tie("subscribe-during-write", "K4", "a subscriber opens WHILE one write is in flight, steered through the yield points: (a) subscriber parked at {value,coll}.onUpdate.beforeListen (between its snapshot and its bus registration) while the write runs - compared: whether the write is blocked on the resource lock (decided from the goroutine's wait reason) or finishes, the seed, every delivery; (b) write parked at value.set.beforeSend / coll.update.beforeSend (committed, not published) while the subscriber opens. ALL (initial contents, prefix write, write in flight, follow-up write) over the small alphabet x both kinds x {plain, updates-only, read mask} x equivalence {none, equal}, Collection and Value; the random K1 histories contain such scenarios too. distinct = distinct scripts"),
-		mon:  res.Monitor("writer-log", "the stream each subscriber received vs the writer's own log: seed = current contents sorted by id, flagged, last flagged last, stored change time; then exactly one event per successful write (none for failed writes or a no-op delete), id/kind/old/new from what the writer's calls returned, time = write time or a clock reading within the write, suppression iff the configured equivalence relates the compared pair"),
+		cover: newPairCover(),
+		drv:   drv,
+		tieC:  res.Tie("coll-stream", "K1", "random write histories on a Collection (Add/Update/Delete, successful and failing, every write option, with/without write time, id interceptor, generated ids, fixed/ticking clock, empty/one/many initial records) with backpressured Pull subscribers opened at random points (read mask, updates-only; resource equivalence none/equal/sameA); compared: every seed and every delivery after every write. distinct = distinct (config, op, subscriptions, answer)"),
+		tieV:  res.Tie("value-stream", "K1", "the same for Value.Set / Value.Pull (with/without initial value)"),
+		tieS:  res.Tie("small-scope", "K2", "ALL write histories up to the stated length over ids {a,b} (add/update/create-update/delete/failing-precondition) x every subscription point x {plain, updates-only, read mask} x equivalence {none, equal}; distinct = distinct scripts"),
+		tieR:  res.Tie("subscribe-during-write", "K4", "a subscriber opens WHILE one write is in flight, steered through the yield points: (a) subscriber parked at {value,coll}.onUpdate.beforeListen (between its snapshot and its bus registration) while the write runs - compared: whether the write is blocked on the resource lock (decided from the goroutine's wait reason) or finishes, the seed, every delivery; (b) write parked at value.set.beforeSend / coll.update.beforeSend (committed, not published) while the subscriber opens. ALL (initial contents, prefix write, write in flight, follow-up write) over the small alphabet x both kinds x {plain, updates-only, read mask} x equivalence {none, equal}, Collection and Value; the random K1 histories contain such scenarios too. distinct = distinct scripts"),
+		mon:   res.Monitor("writer-log", "the stream each subscriber received vs the writer's own log: seed = current contents sorted by id, flagged, last flagged last, stored change time; then exactly one event per successful write (none for failed writes or a no-op delete), id/kind/old/new from what the writer's calls returned, time = write time or a clock reading within the write, suppression iff the configured equivalence relates the compared pair"),
 	}
 	r := lib.NewRand(f.Seed)
 	h.smallScope(f.N(3, 4))
@@ -61,12 +62,16 @@ func main() {
 	h.tieS.Exhaustive = true
 	h.tieR.Exhaustive = true
 	res.Extra["ops_total"] = h.ops
+	pw := h.cover.report([]string{"upd", "add", "del", "vset"}, []string{"rm", "uo"})
+	res.Extra["pairwise_option_coverage"] = pw
+	h.tieC.Count(fmt.Sprintf("pairwise option combinations covered: %v of %v", pw["covered"], pw["combinations"]))
 	if err := res.Write(f.Out); err != nil {
 		lib.Fatal(err)
 	}
 }
 
 type harness struct {
+	cover                  *pairCover
 	drv                    *lib.Driver
 	tieC, tieV, tieS, tieR *lib.Tie
 	mon                    *lib.Monitor
@@ -84,10 +89,12 @@ func (o Op) subLine() string {
 	return o.Op + " " + strings.Join(o.Opts, " ")
 }
 
+func optOf(o Op, k string) string { v, _ := o.opt(k); return v }
+
 func isRace(o Op) bool { return o.Op == "racea" || o.Op == "raceb" }
 
 func opLine(o Op) string {
-	if o.Op == "sub" || o.Op == "unsub" {
+	if o.Op == "sub" || o.Op == "unsub" || o.Op == "subid" {
 		return o.subLine()
 	}
 	if isRace(o) {
@@ -114,6 +121,8 @@ func runCode(s Script) []obs {
 			o.ans = r.subscribe(op)
 		case "unsub":
 			o.ans = r.unsubscribe(op)
+		case "subid":
+			o.ans = r.subscribeID(op)
 		case "racea":
 			o.ans = r.raceA(op)
 			o.ids = lastRaceIDs
@@ -169,6 +178,7 @@ func (h *harness) runScript(s Script, tie *lib.Tie) {
 		return
 	}
 	w := newWriterLog(s.Cfg)
+	liveSubs := map[string]Op{}
 	subsDesc := ""
 	for i, op := range s.Ops {
 		h.ops++
@@ -179,6 +189,26 @@ func (h *harness) runScript(s Script, tie *lib.Tie) {
 		}
 		tie.Record(key, !exh || i == len(s.Ops)-1, map[string]any{"script": prefix(s, i+1)}, model[i], code[i].ans)
 		tie.Count("op:" + op.Op)
+		if op.isWrite() || isRace(op) {
+			wop := op
+			if isRace(op) {
+				wop, _ = splitRace(op)
+			}
+			h.cover.call(wop.Op, wop)
+			// the readers of a write: the subscriptions open at that moment
+			for _, so := range liveSubs {
+				h.cover.cross(wop.Op, wop, []string{"rm", "uo"}, so)
+			}
+		}
+		switch {
+		case op.Op == "sub" || op.Op == "subid":
+			liveSubs[optOf(op, "name")] = op
+		case op.Op == "unsub":
+			delete(liveSubs, optOf(op, "name"))
+		case isRace(op):
+			_, so := splitRace(op)
+			liveSubs[optOf(so, "name")] = so
+		}
 		if isRace(op) {
 			tie.Count(op.Op + ":" + strings.SplitN(code[i].ans, " ", 2)[0])
 		}
@@ -196,7 +226,7 @@ func (h *harness) runScript(s Script, tie *lib.Tie) {
 		}
 		h.mon.Eval(key, true, nil)
 		w.check(h.mon, s, i, code[i])
-		if op.Op == "sub" || op.Op == "unsub" || isRace(op) {
+		if op.Op == "sub" || op.Op == "unsub" || op.Op == "subid" || isRace(op) {
 			subsDesc += opLine(op) + ";"
 		}
 	}
@@ -222,8 +252,10 @@ type refEntry struct {
 }
 
 type subState struct {
-	rm   *string
-	last string // Value: the last value delivered ("nil" if none)
+	rm    *string
+	last  string  // Value: the last value delivered ("nil" if none)
+	pid   *string // PullID: the (intercepted) id
+	ended bool    // PullID: the item was removed, the stream has ended
 }
 
 type writerLog struct {
@@ -238,13 +270,13 @@ func newWriterLog(cfg Cfg) *writerLog {
 	w := &writerLog{cfg: cfg, ref: map[string]refEntry{}, subs: map[string]*subState{}}
 	if cfg.Kind == "val" {
 		if len(cfg.Init) > 0 && cfg.Init[0] != "nil" {
-			w.val = &refEntry{msg: cfg.Init[0], exact: true, t: "0"}
+			w.val = &refEntry{msg: rparse(cfg.Init[0]).String(), exact: true, t: "0"}
 		}
 	} else {
 		for _, rec := range cfg.Init {
 			p := strings.SplitN(rec, "~", 2)
 			if _, dup := w.ref[p[0]]; !dup {
-				w.ref[p[0]] = refEntry{msg: p[1], exact: true, t: "0"}
+				w.ref[p[0]] = refEntry{msg: rparse(p[1]).String(), exact: true, t: "0"}
 			}
 		}
 	}
@@ -348,6 +380,8 @@ func (w *writerLog) check(m *lib.Monitor, s Script, i int, o obs) {
 		}
 	case "sub":
 		w.checkSub(m, in, sig, op, o.ans)
+	case "subid":
+		w.checkSubID(m, in, op, o.ans)
 	case "racea":
 		w.checkRaceA(m, in, sig, op, o)
 	case "raceb":
@@ -415,6 +449,41 @@ func (w *writerLog) checkRaceB(m *lib.Monitor, in map[string]any, sig string, op
 	}
 	w.checkDeliveries(m, in, sig, exp, evTime, o.ans)
 	w.checkSub(m, in, sig, sop, o.ans)
+}
+
+// checkSubID: the seed of a PullID: the item's (projected) current value with its stored change time,
+// flagged seed and last-seed, if the item exists and the subscription is not updates-only.
+func (w *writerLog) checkSubID(m *lib.Monitor, in map[string]any, op Op, ans string) {
+	sig := "C04/Collection.PullID"
+	name, _ := op.opt("name")
+	id := w.icpt(optOf(op, "id"))
+	st := &subState{last: "nil", pid: &id}
+	if v, ok := op.opt("rm"); ok {
+		st.rm = &v
+	}
+	w.subs[name] = st
+	w.order = append(w.order, name)
+	got := splitList(part(ans, "seed"))
+	e, exists := w.ref[id]
+	if op.has("uo") || !exists {
+		if len(got) != 0 {
+			m.Violate(sig+"/seed/unexpected-seed", "seed for an updates-only subscription or an absent item", in, "[]", part(ans, "seed"))
+		}
+		return
+	}
+	if len(got) != 1 {
+		m.Violate(sig+"/seed/count", "an existing item must be seeded by exactly one value", in, "1 value", part(ans, "seed"))
+		return
+	}
+	f := strings.Split(got[0], "|")
+	switch {
+	case f[0] != proj(e.msg, st.rm):
+		m.Violate(sig+"/seed/wrong-value", "seed value is not the (projected) stored item", in, proj(e.msg, st.rm), f[0])
+	case f[2] != "SL":
+		m.Violate(sig+"/seed/wrong-flags", "the single seed value of an item must be flagged seed and last-seed", in, "SL", f[2])
+	case !e.timeOK(f[1]):
+		m.Violate(sig+"/seed/wrong-time", "seed does not carry the item's stored change time", in, fmt.Sprint(e), f[1])
+	}
 }
 
 func (w *writerLog) checkSub(m *lib.Monitor, in map[string]any, sig string, op Op, ans string) {
@@ -541,6 +610,10 @@ func (w *writerLog) checkDeliveries(m *lib.Monitor, in map[string]any, sig strin
 	o := obs{ans: ans}
 	for _, name := range w.order {
 		st := w.subs[name]
+		if st.pid != nil {
+			w.checkPidDelivery(m, in, st, exp, evTime, part(o.ans, name))
+			continue
+		}
 		got := splitList(part(o.ans, name))
 		var want []string
 		suppressed := false
@@ -610,11 +683,63 @@ func (w *writerLog) checkDeliveries(m *lib.Monitor, in map[string]any, sig strin
 	}
 }
 
+// checkPidDelivery: a PullID subscriber receives the new value of every successful ADD/UPDATE of its
+// id, nothing for other ids, and its stream ends (channel closed, marked $) with the REMOVE of its id.
+func (w *writerLog) checkPidDelivery(m *lib.Monitor, in map[string]any, st *subState, exp *[5]string, evTime refEntry, got string) {
+	sig := "C04/Collection.PullID"
+	closed := strings.HasSuffix(got, "$")
+	list := splitList(strings.TrimSuffix(got, "$"))
+	if strings.Contains(got, "!not-closed") {
+		m.Violate(sig+"/not-closed-after-remove", "the stream did not end when the item was removed", in, "closed channel", got)
+		return
+	}
+	if st.ended {
+		if !closed || len(list) != 0 {
+			m.Violate(sig+"/event-after-end", "a PullID stream delivered something after its item was removed", in, "[]$", got)
+		}
+		return
+	}
+	var want []string
+	if exp != nil && exp[0] == *st.pid {
+		if exp[1] == "REMOVE" {
+			st.ended = true
+		} else {
+			oldP, newP := proj(exp[2], st.rm), proj(exp[3], st.rm)
+			if !(w.cfg.Eqv != "" && eqvHolds(w.cfg.Eqv, oldP, newP)) {
+				want = []string{newP}
+			}
+		}
+	}
+	switch {
+	case closed != st.ended:
+		m.Violate(sig+"/wrong-end", "the stream must end exactly when its item is removed", in, fmt.Sprint("ended=", st.ended), got)
+	case len(list) != len(want) && len(want) == 0:
+		m.Violate(sig+"/unexpected-event", "a PullID subscriber received an event that is not a successful write of its id", in, "[]", got)
+	case len(list) != len(want):
+		m.Violate(sig+"/missing-event", "a successful write of the id was not delivered", in, want[0], got)
+	case len(want) == 1:
+		f := strings.Split(list[0], "|")
+		switch {
+		case f[0] != want[0]:
+			m.Violate(sig+"/wrong-new", "value is not the (projected) result returned to the writer", in, want[0], f[0])
+		case f[2] != "":
+			m.Violate(sig+"/wrong-flags", "an update is flagged as seed", in, "", f[2])
+		case !evTime.timeOK(f[1]):
+			m.Violate(sig+"/wrong-time", "change time is neither the write time nor a clock reading taken during the write", in, fmt.Sprint(evTime), f[1])
+		}
+	}
+}
+
 // ---------------------------------------------------------------------------------------------
 // generators
 
 func fixedScripts() []Script {
 	return []Script{
+		// PullID: seed flagged last-seed although "a" is not the greatest id; other ids skipped; ends on REMOVE
+		{Cfg: Cfg{Kind: "coll", Tick: 1, Init: []string{"a~2//3", "b~1//-"}}, Ops: []Op{
+			{Op: "subid", Opts: []string{"name=p", "id=a", "rm=a"}}, {Op: "subid", Opts: []string{"name=q", "id=c"}},
+			{Op: "upd", ID: "b", Msg: "5//-"}, {Op: "upd", ID: "a", Msg: "5/z/-"}, {Op: "add", ID: "c", Msg: "1//-"},
+			{Op: "del", ID: "a"}, {Op: "add", ID: "a", Msg: "1//-"}, {Op: "del", ID: "c"}}},
 		// boundary write times: the zero time.Time, the Unix epoch, before the epoch - live event and later seed
 		{Cfg: Cfg{Kind: "coll", Tick: 1}, Ops: []Op{
 			{Op: "sub", Opts: []string{"name=k1"}}, {Op: "add", ID: "a", Msg: "1//-", Opts: []string{"wt=" + zeroInstant}},
@@ -702,6 +827,19 @@ func genHistory(r *rand.Rand, n int) Script {
 			name := fmt.Sprintf("k%d", nsub)
 			live = append(live, name)
 			so := pick(r, subOptPool)
+			if s.Cfg.Kind == "coll" && s.Cfg.Eqv == "" && r.Intn(100) < 25 {
+				// PullID of an id that exists, will exist, or never does
+				id := pick(r, idPool)
+				if len(o.items) > 0 && r.Intn(3) > 0 {
+					ids := make([]string, 0, len(o.items))
+					for k := range o.items {
+						ids = append(ids, k)
+					}
+					id = pick(r, sortedCopy(ids))
+				}
+				s.Ops = append(s.Ops, Op{Op: "subid", Opts: append([]string{"name=" + name, "id=" + id}, so...)})
+				continue
+			}
 			if r.Intn(100) < 45 {
 				// the subscriber opens while a write is in flight
 				w := genWrite(r, s, o)
